@@ -1334,6 +1334,134 @@ def glob_anchor(rep):
         raise AnalysisError("glob-anchor: no number parsed from a globbed path was found")
 
 
+def geometry_per_dataset(rep):
+    """The ghost widths and the origin of a chunk are properties of *that* dataset (iteration,
+    chunk): they must be read from its own attributes each time.  A value read from
+    `.attrs['cctk_nghostzones']` / `.attrs['iorigin']` that is stored in a container created
+    outside the loop over iterations is remembered from one iteration to the next (a file whose
+    process layout changes between iterations is then assembled with the wrong geometry)."""
+    S = rep.sources
+    n = 0
+    for q in ("read_ET_group_or_var", "read_ET_checkpoints"):
+        fn = S.function(RD, q)
+        itloops = [lp for lp in ast.walk(fn) if isinstance(lp, ast.For)
+                   and unparse(lp.iter) in ("it", "list(it)", "sorted(it)", "enumerate(it)")]
+        if not itloops:
+            raise AnalysisError(f"{q}: the loop over iterations was not found")
+        for node in ast.walk(fn):
+            if not (isinstance(node, ast.Subscript) and isinstance(node.slice, ast.Constant)
+                    and node.slice.value in ("cctk_nghostzones", "iorigin")
+                    and isinstance(node.ctx, ast.Load)):
+                continue
+            n += 1
+            st = parent_stmt(node)
+            key = f"{RD}::{q}::{node.slice.value}@{norm_src(st)[:40]}"
+            bad = None
+            if isinstance(st, ast.Assign):
+                for t in st.targets:
+                    root = t
+                    while isinstance(root, ast.Subscript):
+                        root = root.value
+                    if isinstance(t, ast.Subscript) and isinstance(root, ast.Name):
+                        # stored into a container: where is that container created?
+                        creations = [a for a in assignments_to(fn, root.id)
+                                     if isinstance(a, ast.Assign) and a is not st]
+                        inside = [lp for lp in itloops if st in list(ast.walk(lp))]
+                        for c_ in creations:
+                            if inside and not any(c_ in list(ast.walk(lp)) for lp in inside):
+                                bad = root.id
+            rep.check(bad is None, "storage-order", key,
+                      f"`{norm_src(st)[:70]}` keeps the geometry of a chunk in `{bad}`, which is "
+                      "created outside the loop over iterations: later iterations reuse the "
+                      "ghost widths / origin of an earlier one", node=st)
+    if n < 2:
+        raise AnalysisError("geometry-per-dataset: no reads of the chunk geometry found")
+
+
+def empty_selection_means_all(rep):
+    """`vars=[]` is the documented spelling of "all variables" for the reader
+    (read_aurel_data) and for the writer (save_data) alike: each of them must test its
+    selection for emptiness and fall back to everything (every key of data / every dataset
+    of the file)."""
+    S = rep.sources
+    for q, fallback in (("save_data", "data"), ("read_aurel_data", None)):
+        fn = S.function(RD, q)
+        names = [a.targets[0].id for a in ast.walk(fn) if isinstance(a, ast.Assign)
+                 and len(a.targets) == 1 and isinstance(a.targets[0], ast.Name)
+                 and "kwargs.get('vars'" in rtext(fn, a.value)]
+        if not names:
+            raise AnalysisError(f"{q}: the binding of the selection from kwargs not found")
+        sel = set(names)
+        tests = []
+        for t in ast.walk(fn):
+            if isinstance(t, ast.If) or isinstance(t, ast.IfExp):
+                txt = unparse(t.test)
+                for nm in sel:
+                    if txt in (f"{nm} == []", f"not {nm}", f"len({nm}) == 0", f"{nm} != []",
+                               nm, f"len({nm}) > 0", f"len({nm}) != 0"):
+                        tests.append(t)
+        ok = bool(tests)
+        if ok and fallback:
+            ok = any(fallback in unparse(x) for t in tests for x in ast.walk(t)
+                     if isinstance(x, ast.Assign))
+        rep.check(ok, "template-agreement", f"{RD}::{q}::empty-selection",
+                  f"{q} does not treat an empty `vars` as \"everything\" (no test of the "
+                  "selection for emptiness with a fall-back): the other side of the round trip "
+                  "does, so `vars=[]` saves / reads different sets of variables", node=fn)
+
+
+def level_coverage(rep):
+    """The overview merges the iterations of *every* refinement level 0..rlmax present in some
+    restart: the loop over levels is `for rl in range(rlmax + 1)`, or a while loop whose
+    continuation depends on `rl` and `rlmax` only (not on whether the current level was found:
+    levels need not be contiguous nor start at 0)."""
+    S = rep.sources
+    fn = S.function(RD, "collect_overall_iterations")
+    key = f"{RD}::collect_overall_iterations::level-coverage"
+    for lp in ast.walk(fn):
+        if isinstance(lp, ast.For) and isinstance(lp.target, ast.Name) \
+                and rtext(fn, lp.iter).replace(" ", "") in ("range(rlmax+1)", "range(0,rlmax+1)"):
+            rep.ok("level-representative", key)
+            return
+    loops = [lp for lp in ast.walk(fn) if isinstance(lp, ast.While)]
+    if len(loops) != 1:
+        raise AnalysisError("collect_overall_iterations: the loop over levels was not found")
+    lp = loops[0]
+    if isinstance(lp.test, ast.Compare):
+        names = {x.id for x in ast.walk(lp.test) if isinstance(x, ast.Name)}
+        rep.check(names <= {"rl", "rlmax"}, "level-representative", key,
+                  f"the loop over levels continues while `{unparse(lp.test)}`", node=lp)
+        return
+    if not isinstance(lp.test, ast.Name):
+        raise AnalysisError("collect_overall_iterations: loop test not understood")
+    flag = lp.test.id
+    # the value of the flag at the end of the body: the last top-level statement binding it
+    last = None
+    for st in lp.body:
+        if any(isinstance(x, ast.Name) and x.id == flag and isinstance(x.ctx, ast.Store)
+               for x in ast.walk(st)):
+            last = st
+    if last is None:
+        raise AnalysisError("collect_overall_iterations: the loop flag is never updated")
+    deps = set()
+    if isinstance(last, ast.Assign):
+        deps = {x.id for x in ast.walk(last.value) if isinstance(x, ast.Name)}
+    elif isinstance(last, ast.If):
+        deps = {x.id for x in ast.walk(last.test) if isinstance(x, ast.Name)}
+        consts = all(isinstance(a.value, ast.Constant) for a in ast.walk(last)
+                     if isinstance(a, ast.Assign))
+        both = bool(last.orelse)
+        if not (consts and both):
+            deps.add(flag)
+    else:
+        deps = {flag}
+    rep.check(deps <= {"rl", "rlmax"}, "level-representative", key,
+              f"whether the next level is visited is decided by `{norm_src(last)[:70]}`, which "
+              f"depends on {sorted(deps - {'rl', 'rlmax'})}: a level that no restart contains "
+              "ends the loop, and the finer levels on disk are missing from the overview",
+              node=last)
+
+
 def separator_guard(rep):
     """Whether the directory separator is inserted between the data path and the file name may
     depend only on the text of the path (does it end in '/') and on the layout choice
